@@ -245,16 +245,16 @@ namespace MoSql.Lex
 
 /-- `parse_int` (after the exactness fix): `int(mantissa) * 10 ** int(exponent)` for the text
 `digits [eE] [+]? digits` that `int_num` accepts (sign handled by the caller) -/
+def stripPlus : List Char → List Char
+  | '+' :: t => t
+  | t => t
+
 def parseIntText (cs : List Char) : Nat :=
   let mant := cs.takeWhile isDigit
   let rest := cs.dropWhile isDigit
   match rest with
   | [] => parseNat mant
-  | _ :: e =>
-    let e' := match e with
-      | '+' :: t => t
-      | t => t
-    parseNat mant * 10 ^ parseNat e'
+  | _ :: e => parseNat mant * 10 ^ parseNat (stripPlus e)
 
 end MoSql.Lex
 
